@@ -5,6 +5,8 @@ retry structure   parseToken_eq_attempts, attempts_isErr_comm, jwt_attempts_comm
                   parseToken_accepts_only_fully_verified, parseToken_accepted_set_independent_of_order,
                   parseToken_follows_calls, calls_parse_only_the_two_secrets,
                   signature_only_fallback_accepts_expired (witness)
+cap               readBody_isSome_iff_admits, crypt_handler_runs_only_if_admitted, cap_boundary_unknown_length,
+                  cap_boundary_declared_length, declared_length_uncapped_without_limit, cs_encrypted_runs_only_if_admitted
 flush             flush_partial_write_is_ciphertext_prefix, flush_complete_write
 concurrency       Conc.stepPc_good, Conc.step_inv, Conc.run_inv, Conc.init_inv,
                   Conc.concurrent_outcome_is_the_attempts_in_some_order, Conc.concurrent_acceptance_independent_of_schedule,
@@ -279,6 +281,99 @@ example : (run exReqs (init 2 [("cur", 3)]) [(0, false), (1, false), (1, false),
       (0, false), (0, false), (0, false), (0, false), (0, false)]).pcs = [.done (.tok true none), .done (.tok true none)] := by decide
 
 end Conc
+
+/-! ## bodies around the cap (`limitBytes`, by default `maxBytes` = 1 MiB) -/
+
+/-- `decryptBody` reads the body iff the LENGTHS admit it — for every limit, framing and body -/
+theorem readBody_isSome_iff_admits (limit cl : Int) (raw : Bytes) :
+    (readBody limit cl raw).isSome = readAdmits limit cl raw.length := by
+  unfold readBody readAdmits
+  by_cases h1 : limit > 0 ∧ cl > limit
+  · simp [h1]
+  · rw [if_neg h1, if_neg h1]
+    by_cases h2 : cl > 0
+    · rw [if_pos h2, if_pos h2]
+      unfold readDeclared
+      by_cases h3 : (raw.length : Int) < cl
+      · have : ¬ ((raw.length : Int) ≥ cl) := by omega
+        simp [h3, this]
+      · have : (raw.length : Int) ≥ cl := by omega
+        simp [h3, this]
+    · rw [if_neg h2, if_neg h2]
+      have hpos := unknownCap_pos limit
+      by_cases h3 : (raw.length : Int) > unknownCap limit
+      · rw [(readUnknown_none_iff _ raw hpos).mpr h3]
+        have : ¬ ((raw.length : Int) ≤ unknownCap limit) := by omega
+        simp [this]
+      · cases hr : readUnknown (unknownCap limit) raw with
+        | none => exact absurd ((readUnknown_none_iff _ raw hpos).mp hr) h3
+        | some c =>
+          have : (raw.length : Int) ≤ unknownCap limit := by omega
+          simp [this]
+
+/-- the handler behind `LimitCryptionHandler` runs on a request with a body only when the lengths admit it -/
+theorem crypt_handler_runs_only_if_admitted (C : BlockCipher) (limit : Int) (key : Bytes) (cl : Int) (raw : Bytes)
+    (inner : Inner) (hcl : cl ≠ 0) (hran : (cryptionHandler C limit key cl raw inner).ran = true) :
+    readAdmits limit cl raw.length = true := by
+  rw [← readBody_isSome_iff_admits]
+  rw [cryptionHandler_eq_viaRead] at hran
+  unfold cryptionHandlerViaRead at hran
+  rw [if_neg hcl] at hran
+  cases hr : readBody limit cl raw with
+  | none => simp [hr] at hran
+  | some c => rfl
+
+/-- AT THE DEFAULT CAP, unknown length (chunked), no limit configured (`limitBytes <= 0`) or the default one
+(`CryptionHandler`, `ContentSecurityHandler`: `maxBytes`): a body of maxBytes-1 or maxBytes bytes is read whole, a body of
+maxBytes+1 bytes (or any longer one) is refused — it is never cut at the cap -/
+theorem cap_boundary_unknown_length (limit : Int) (hl : limit ≤ 0 ∨ limit = maxBytes) (len : Nat) :
+    readAdmits limit (-1) len = decide (len ≤ 1048576) := by
+  unfold readAdmits unknownCap maxBytes
+  rcases hl with hl | hl
+  · have h1 : ¬ (limit > 0 ∧ (-1 : Int) > limit) := by omega
+    simp only [h1, if_false, hl, if_true]
+    by_cases h : len ≤ 1048576 <;> simp [h] <;> omega
+  · subst hl
+    simp [maxBytes]
+    by_cases h : len ≤ 1048576 <;> simp [h] <;> omega
+
+/-- declared length at the default limit: exactly the bodies up to maxBytes are read (and they must be complete) -/
+theorem cap_boundary_declared_length (len : Nat) (hpos : 0 < len) :
+    readAdmits maxBytes len len = decide (len ≤ 1048576) := by
+  unfold readAdmits maxBytes
+  by_cases h : len ≤ 1048576
+  · have h1 : ¬ ((1048576 : Int) > 0 ∧ (len : Int) > 1048576) := by omega
+    have h2 : (len : Int) > 0 := by omega
+    rw [if_neg h1, if_pos h2]
+    simp [h]
+  · have h1 : (1048576 : Int) > 0 ∧ (len : Int) > 1048576 := by omega
+    rw [if_pos h1]
+    simp [h]
+
+/-- with NO limit configured a DECLARED length is not capped: whatever the client declares and delivers is read (the 1 MiB
+cap protects the unknown-length branch only) — stated so that the asymmetry is on record -/
+theorem declared_length_uncapped_without_limit (limit : Int) (hl : limit ≤ 0) (len : Nat) (hpos : 0 < len) :
+    readAdmits limit len len = true := by
+  unfold readAdmits
+  have h1 : ¬ (limit > 0 ∧ (len : Int) > limit) := by omega
+  have h2 : (len : Int) > 0 := by omega
+  rw [if_neg h1, if_pos h2]
+  simp
+
+/-- what reaches the handler at the cap, end to end through the content-security gate as well: a verified `type=1` request
+whose handler runs was admitted by its lengths and the handler read the decryption of the WHOLE body -/
+theorem cs_encrypted_runs_only_if_admitted (C : BlockCipher) (env : CsEnv) (cfg : CsCfg) (req : CsReq) (inner : Inner)
+    (h : CsHeader) (hg : gatedMethods.contains req.method = true) (hp : parseContentSecurity env req = .ok h)
+    (hv : verifySignature env cfg.tol req h = 0) (ht : h.contentType = 1) (hcl : req.cl ≠ 0)
+    (hran : (contentSecurity C env cfg req inner).ran = true) :
+    readAdmits cfg.limit req.cl req.body.length = true ∧
+      decryptWhole C h.key (delivered req.cl req.body) = some (contentSecurity C env cfg req inner).seen := by
+  refine ⟨?_, cs_encrypted_handler_sees_decryption_of_whole_body C env cfg req inner h hg hp hv ht hcl hran⟩
+  rw [cs_encrypted_goes_to_cryption C env cfg req inner h hg hp hv ht hcl] at hran
+  exact crypt_handler_runs_only_if_admitted C cfg.limit h.key req.cl req.body inner hcl hran
+
+example : readAdmits 0 (-1) 1048575 = true ∧ readAdmits 0 (-1) 1048576 = true ∧ readAdmits 0 (-1) 1048577 = false := by decide
+example : readAdmits 1048576 1048577 1048577 = false ∧ readAdmits 0 1048577 1048577 = true := by decide
 
 /-! ## `flush`: a failing or short write of the encrypted reply -/
 
